@@ -866,7 +866,7 @@ func oracleC17(p *Pair, env *Env, a [][]byte) *Failure {
 	}
 	empty := [][]byte{{}, {}, {}, {}, {}, {}}
 	switch site {
-	case "generate", "generate-defined", "generate-include-defined", "generate-include", "generate-include-prefixed", "generate-include-suffixed", "generate-nested-include", "generate-replace-suffixes", "generate-include-except", "generate-exclude-file":
+	case "generate", "generate-defined", "generate-include-defined", "generate-include-twice", "generate-include", "generate-include-prefixed", "generate-include-suffixed", "generate-nested-include", "generate-replace-suffixes", "generate-include-except", "generate-exclude-file":
 		// the entries `zzq1` and `zzq2` must both be alternatives of the result
 		var args [][]byte
 		switch site {
@@ -879,6 +879,10 @@ func oracleC17(p *Pair, env *Env, a [][]byte) *Failure {
 			args = append(append([][]byte{}, empty...), []byte("##!> include big\n"), []byte("i"), []byte("big.ra"), join(place([]string{"##!> define zzword q1", "zz{{zzword}}", "zzq2"}, long)))
 		case "generate-include":
 			args = append(append([][]byte{}, empty...), []byte("##!> include big\n"), []byte("i"), []byte("big.ra"), join(place([]string{"zzq1", "zzq2"}, long)))
+		case "generate-include-twice":
+			// the same file referred to twice, first through the line-by-line rewriting of suffixes, then plainly: both
+			// references carry every line (entries end in `@`; the first reference turns that into `~`)
+			args = append(append([][]byte{}, empty...), []byte("##!> include big -- @ ~\n##!> include big\n"), []byte("i"), []byte("big.ra"), join(place([]string{"zzq1@", "zzq2@"}, long+"@")))
 		case "generate-include-prefixed":
 			// a file with its own prefix is re-written as a local block by the parser
 			args = append(append([][]byte{}, empty...), []byte("##!> include big\n"), []byte("i"), []byte("big.ra"), append([]byte("##!^ pp\n"), join(place([]string{"zzq1", "zzq2"}, long))...))
@@ -902,6 +906,16 @@ func oracleC17(p *Pair, env *Env, a [][]byte) *Failure {
 				return nil
 			}
 			buf := "\n" + string(pr.Out[0])
+			if site == "generate-include-twice" {
+				for _, w := range append(companions([]string{"zzq1", "zzq2"}, pos), long) {
+					for _, end := range []string{"@", "~"} {
+						if !strings.Contains(buf, "\n"+w+end+"\n") {
+							return fail("entry "+w[:minInt(len(w), 12)]+end+" is missing from the parsed text", fmt.Sprintf("parsed text of %d bytes", len(pr.Out[0])))
+						}
+					}
+				}
+				return nil
+			}
 			for _, w := range companions([]string{"zzq1", "zzq2"}, pos) {
 				if !strings.Contains(buf, "\n"+w+"\n") {
 					return fail("entry "+w+" is missing from the parsed text", fmt.Sprintf("parsed text of %d bytes", len(pr.Out[0])))
@@ -932,6 +946,13 @@ func oracleC17(p *Pair, env *Env, a [][]byte) *Failure {
 			pre = "pp"
 		case "generate-include-suffixed":
 			suf = "ss"
+		case "generate-include-twice":
+			suf = "@"
+			for _, w := range append(companions([]string{"zzq1", "zzq2"}, pos), long) {
+				if !re.MatchString(w + "~") {
+					return fail("entry "+w[:minInt(len(w), 12)]+"~ (first reference) is missing from the generated alternation", "")
+				}
+			}
 		}
 		for _, w := range companions([]string{"zzq1", "zzq2"}, pos) {
 			if !re.MatchString(pre + w + suf) {
@@ -1030,7 +1051,7 @@ func genC17(r *rand.Rand, tier string, env *Env) []Case {
 		lengths = []int{1, 4095, 4096, 65534, 65535, 65536, 65537, 65538, 100000, 131072, 131073, 262143, 262144, 262145, 300000, 524288, 1048576, 1048577, 4194305}
 	}
 	var cases []Case
-	sites := []string{"generate", "generate-defined", "generate-include-defined", "generate-include", "generate-include-prefixed", "generate-include-suffixed", "generate-nested-include", "generate-replace-suffixes", "generate-include-except", "generate-exclude-file", "format", "renumber", "copyright", "rules-file"}
+	sites := []string{"generate", "generate-defined", "generate-include-defined", "generate-include-twice", "generate-include", "generate-include-prefixed", "generate-include-suffixed", "generate-nested-include", "generate-replace-suffixes", "generate-include-except", "generate-exclude-file", "format", "renumber", "copyright", "rules-file"}
 	for _, site := range sites {
 		for _, n := range lengths {
 			if (site == "generate" || site == "generate-defined") && n > 140000 && n != 262144 {
